@@ -209,6 +209,28 @@ func C01(run *mon.Run) {
 				run.Violate("C01:hasher-size-error:verify", fmt.Sprintf("Verify with %d-byte hasher: (%v,%v)", sz, ok, err), map[string]any{"size": sz})
 			}
 		}
+		// ... whatever algorithm a hasher of the wrong size says it is; and a 128-byte hasher is usable
+		// whatever its label (the image is that of its 128 bytes)
+		for _, alg := range []hash.HashingAlgorithm{hash.KMAC128, hash.SHA2_256, hash.SHA3_384, hash.Keccak_256, hash.HashingAlgorithm(-1), hash.HashingAlgorithm(77)} {
+			for _, sz := range []int{0, 32, 48, 127, 129} {
+				h := newLabelledHasher(alg, sz)
+				_, e1 := sk.Sign([]byte("m"), h)
+				ok, e2 := pk.Verify(make([]byte, 48), []byte("m"), h)
+				run.Eval(2)
+				if ok || !crypto.IsInvalidHasherSizeError(e1) || !crypto.IsInvalidHasherSizeError(e2) {
+					run.Violate("C01:hasher-size-error:labelled", fmt.Sprintf("%d-byte hasher announcing algorithm %v: Sign error %v, Verify (%v,%v)", sz, alg, e1, ok, e2), map[string]any{"size": sz, "algorithm_label": int(alg)})
+				}
+			}
+			h := newLabelledHasher(alg, 128)
+			plain := ctrHasher("labelled", false, 128)
+			s1, e1 := sk.Sign([]byte("labelled"), h)
+			s2, e2 := sk.Sign([]byte("labelled"), plain)
+			ok, e3 := pk.Verify(s1, []byte("labelled"), h)
+			run.Eval(3)
+			if e1 != nil || e2 != nil || e3 != nil || !ok || !bytes.Equal(s1, s2) {
+				run.Violate("C01:labelled-hasher", fmt.Sprintf("a 128-byte hasher announcing algorithm %v: Sign (%x, %v), the same expansion under another label (%x, %v), Verify (%v, %v)", alg, []byte(s1), e1, []byte(s2), e2, ok, e3), map[string]any{"algorithm_label": int(alg)})
+			}
+		}
 		_, err := sk.Sign([]byte("m"), nil)
 		if !crypto.IsNilHasherError(err) {
 			run.Violate("C01:nil-hasher:sign", fmt.Sprintf("Sign(nil hasher) error %v", err), nil)
